@@ -24,11 +24,13 @@ structure BlkInv (s : State) : Prop where
   armed : s.onStopArmed = true → s.blockReq.isSome = true ∧ s.blockHandler = true
   reader : s.blockReader = true → s.blockReq.isSome = true
   handler : s.blockHandler = true → s.blockReq.isSome = true
+  started : s.blockStarted = true → s.blockReader = true ∧ s.bh.called = true ∧ s.bh.done = none
 
 theorem BlkInv.same {s s' : State} (h1 : s'.blockReq = s.blockReq) (h2 : s'.blockHandler = s.blockHandler)
-    (h3 : s'.blockReader = s.blockReader) (h4 : s'.onStopArmed = s.onStopArmed) (h : BlkInv s) : BlkInv s' :=
+    (h3 : s'.blockReader = s.blockReader) (h4 : s'.onStopArmed = s.onStopArmed)
+    (h5 : s'.blockStarted = s.blockStarted) (h6 : s'.bh = s.bh) (h : BlkInv s) : BlkInv s' :=
   ⟨fun h' => by rw [h1, h2]; exact h.armed (h4 ▸ h'), fun h' => by rw [h1]; exact h.reader (h3 ▸ h'),
-   fun h' => by rw [h1]; exact h.handler (h2 ▸ h')⟩
+   fun h' => by rw [h1]; exact h.handler (h2 ▸ h'), fun h' => by rw [h3, h6]; exact h.started (h5 ▸ h')⟩
 
 /-- what a handler that does not go through `accept` may change. -/
 structure Frame (s s' : State) : Prop where
@@ -112,22 +114,22 @@ theorem hsConsume_spec (s : State) (v : Bool) : Frame s (hsConsume s v).1 ∧ qu
   cases v
   · simp only [Bool.false_eq_true, ↓reduceIte]
     split
-    · exact ⟨⟨fun _ => ⟨rfl, rfl⟩, rfl, rfl, rfl, rfl, rfl, fun _ => rfl, id, fun _ _ => rfl, BlkInv.same rfl rfl rfl rfl⟩, quiet_of_quietB rfl⟩
-    · exact ⟨⟨fun _ => ⟨rfl, rfl⟩, rfl, rfl, rfl, rfl, rfl, id, id, fun _ _ => rfl, BlkInv.same rfl rfl rfl rfl⟩, quiet_nil⟩
+    · exact ⟨⟨fun _ => ⟨rfl, rfl⟩, rfl, rfl, rfl, rfl, rfl, fun _ => rfl, id, fun _ _ => rfl, BlkInv.same rfl rfl rfl rfl rfl rfl⟩, quiet_of_quietB rfl⟩
+    · exact ⟨⟨fun _ => ⟨rfl, rfl⟩, rfl, rfl, rfl, rfl, rfl, id, id, fun _ _ => rfl, BlkInv.same rfl rfl rfl rfl rfl rfl⟩, quiet_nil⟩
   · simp only [↓reduceIte]
     by_cases h1 : s.verAckSent = true <;> by_cases h2 : s.verAckReceived = true <;>
       simp only [h1, h2, Bool.not_true, Bool.not_false, Bool.false_eq_true, ↓reduceIte, List.nil_append,
         List.cons_append]
-    · exact ⟨⟨fun _ => ⟨rfl, rfl⟩, rfl, rfl, rfl, rfl, rfl, fun _ => rfl, id, fun _ _ => rfl, BlkInv.same rfl rfl rfl rfl⟩, quiet_of_quietB rfl⟩
-    · exact ⟨⟨fun _ => ⟨rfl, rfl⟩, rfl, rfl, rfl, rfl, rfl, id, id, fun _ _ => rfl, BlkInv.same rfl rfl rfl rfl⟩, quiet_nil⟩
-    · exact ⟨⟨fun _ => ⟨rfl, rfl⟩, rfl, rfl, rfl, rfl, rfl, fun _ => rfl, id, fun _ _ => rfl, BlkInv.same rfl rfl rfl rfl⟩, quiet_of_quietB rfl⟩
-    · exact ⟨⟨fun _ => ⟨rfl, rfl⟩, rfl, rfl, rfl, rfl, rfl, id, id, fun _ _ => rfl, BlkInv.same rfl rfl rfl rfl⟩, quiet_of_quietB rfl⟩
+    · exact ⟨⟨fun _ => ⟨rfl, rfl⟩, rfl, rfl, rfl, rfl, rfl, fun _ => rfl, id, fun _ _ => rfl, BlkInv.same rfl rfl rfl rfl rfl rfl⟩, quiet_of_quietB rfl⟩
+    · exact ⟨⟨fun _ => ⟨rfl, rfl⟩, rfl, rfl, rfl, rfl, rfl, id, id, fun _ _ => rfl, BlkInv.same rfl rfl rfl rfl rfl rfl⟩, quiet_nil⟩
+    · exact ⟨⟨fun _ => ⟨rfl, rfl⟩, rfl, rfl, rfl, rfl, rfl, fun _ => rfl, id, fun _ _ => rfl, BlkInv.same rfl rfl rfl rfl rfl rfl⟩, quiet_of_quietB rfl⟩
+    · exact ⟨⟨fun _ => ⟨rfl, rfl⟩, rfl, rfl, rfl, rfl, rfl, id, id, fun _ _ => rfl, BlkInv.same rfl rfl rfl rfl rfl rfl⟩, quiet_of_quietB rfl⟩
 
 theorem hsPush_spec (s : State) (v : Bool) : Frame s (hsPush s v).1 ∧ quiet (hsPush s v).2 := by
   unfold hsPush
   split
   · split
-    · exact ⟨⟨fun _ => ⟨rfl, rfl⟩, rfl, rfl, rfl, rfl, rfl, id, id, fun _ _ => rfl, BlkInv.same rfl rfl rfl rfl⟩, quiet_nil⟩
+    · exact ⟨⟨fun _ => ⟨rfl, rfl⟩, rfl, rfl, rfl, rfl, rfl, id, id, fun _ _ => rfl, BlkInv.same rfl rfl rfl rfl rfl rfl⟩, quiet_nil⟩
     · exact ⟨Frame.refl s, quiet_nil⟩
   · exact hsConsume_spec s v
 
@@ -171,7 +173,7 @@ theorem hProtoconf_harmless (e : Env) (s : State) (L : Nat) (ck inp : Bytes) :
   · exact harmless_refl s
   · exact harmless_refl s
   · simp only []
-    split <;> exact ⟨⟨fun _ => ⟨rfl, rfl⟩, rfl, rfl, rfl, rfl, rfl, id, id, fun _ _ => rfl, BlkInv.same rfl rfl rfl rfl⟩, quiet_nil⟩
+    split <;> exact ⟨⟨fun _ => ⟨rfl, rfl⟩, rfl, rfl, rfl, rfl, rfl, id, id, fun _ _ => rfl, BlkInv.same rfl rfl rfl rfl rfl rfl⟩, quiet_nil⟩
 
 theorem hPing_harmless (e : Env) (s : State) (L : Nat) (ck inp : Bytes) :
     HP (Harmless s) (hPing e s L ck inp) := by
@@ -229,7 +231,7 @@ theorem trackLoop_framed (e : Env) (s : State) (k : Nat) (b : Bytes) (used : Nat
       · exact Frame.refl s
       · split
         · exact ih _ _ _
-        · exact ⟨fun _ => ⟨rfl, rfl⟩, rfl, rfl, rfl, rfl, rfl, id, fun _ => rfl, fun _ _ => rfl, BlkInv.same rfl rfl rfl rfl⟩
+        · exact ⟨fun _ => ⟨rfl, rfl⟩, rfl, rfl, rfl, rfl, rfl, id, fun _ => rfl, fun _ _ => rfl, BlkInv.same rfl rfl rfl rfl rfl rfl⟩
 
 theorem hHeadersTrack_framed (e : Env) (s : State) (L : Nat) (inp : Bytes) :
     Frame s (hHeadersTrack e s L inp).st := by
@@ -244,7 +246,7 @@ theorem hHeadersTrack_framed (e : Env) (s : State) (L : Nat) (inp : Bytes) :
     · exact trackLoop_framed _ _ _ _ _ _
 
 theorem txs_frame (s : State) (l : List TxEntry) : Frame s { s with txs := l } :=
-  ⟨fun _ => ⟨rfl, rfl⟩, rfl, rfl, rfl, rfl, rfl, id, id, fun _ _ => rfl, BlkInv.same rfl rfl rfl rfl⟩
+  ⟨fun _ => ⟨rfl, rfl⟩, rfl, rfl, rfl, rfl, rfl, id, id, fun _ _ => rfl, BlkInv.same rfl rfl rfl rfl rfl rfl⟩
 
 theorem txAnnounce_frame (s : State) (h : Bytes) : Frame s (txAnnounce s h).1 := by
   unfold txAnnounce
@@ -334,19 +336,25 @@ theorem completeBlock_frame (s : State) (h : Bytes) (hb : s.verified = false →
     refine ⟨fun hv => ?_, rfl, rfl, rfl, rfl, rfl, id, id,
       fun c hc => lookupCmd_del_ne _ _ _ (fun hh => hc hh.symm), fun _ => ?_⟩
     · rw [hb hv] at heq; cases heq
-    · exact ⟨fun h => (by cases h), fun h => (by cases h), fun h => (by cases h)⟩
+    · exact ⟨fun h => (by cases h), fun h => (by cases h), fun h => (by cases h), fun h => (by cases h)⟩
   · exact Frame.refl s
 
 /-- `handleBlock` marking the request as streaming, and the handler's record. -/
 theorem streaming_frame (s : State) (r : BlockRec) (hq : s.blockReq.isSome = true) :
-    Frame s { s with blockReader := true, bh := r } :=
+    Frame s { s with blockReader := true, blockStarted := false, bh := r } :=
   ⟨fun _ => ⟨rfl, rfl⟩, rfl, rfl, rfl, rfl, rfl, id, id, fun _ _ => rfl,
-   fun h => ⟨h.armed, fun _ => hq, h.handler⟩⟩
+   fun h => ⟨h.armed, fun _ => hq, h.handler, fun h' => (by cases h')⟩⟩
 
 theorem streaming_frame' (s : State) (hq : s.blockReq.isSome = true) :
-    Frame s { s with blockReader := true } :=
+    Frame s { s with blockReader := true, blockStarted := false } :=
   ⟨fun _ => ⟨rfl, rfl⟩, rfl, rfl, rfl, rfl, rfl, id, id, fun _ _ => rfl,
-   fun h => ⟨h.armed, fun _ => hq, h.handler⟩⟩
+   fun h => ⟨h.armed, fun _ => hq, h.handler, fun h' => (by cases h')⟩⟩
+
+/-- the handler thread has been started and is being fed. -/
+theorem started_frame (s : State) (c g : Nat) (hq : s.blockReq.isSome = true) :
+    Frame s { s with blockReader := true, blockStarted := true, bh := { called := true, count := c, got := g, done := none } } :=
+  ⟨fun _ => ⟨rfl, rfl⟩, rfl, rfl, rfl, rfl, rfl, id, id, fun _ _ => rfl,
+   fun h => ⟨h.armed, fun _ => hq, h.handler, fun _ => ⟨rfl, rfl, rfl⟩⟩⟩
 
 theorem hBlock_framed (e : Env) (s : State) (L : Nat) (inp : Bytes)
     (hb : s.verified = false → s.blockReq = none) : Frame s (hBlock e s L inp).st := by
@@ -370,9 +378,9 @@ theorem hBlock_framed (e : Env) (s : State) (L : Nat) (inp : Bytes)
         · exact hc s _ (Frame.refl s) rfl rfl
         · split
           · exact streaming_frame' s hsome
-          · exact hc _ _ (streaming_frame' s hsome) rfl rfl
+          · exact streaming_frame' s hsome
           · split
-            · exact streaming_frame s _ hsome
+            · exact started_frame s _ _ hsome
             · exact hc _ _ (streaming_frame s _ hsome) rfl rfl
             · exact hc _ _ (streaming_frame s _ hsome) rfl rfl
             · exact Frame.refl s
@@ -430,7 +438,7 @@ theorem hHeadersVerifyBody_spec (e : Env) (s : State) (inp : Bytes) (hc : s.hsCo
   · exact Or.inl (harmless_refl s)
   · simp only []
     split
-    · exact Or.inl ⟨⟨fun _ => ⟨rfl, rfl⟩, rfl, rfl, rfl, rfl, rfl, id, fun _ => rfl, fun _ _ => rfl, BlkInv.same rfl rfl rfl rfl⟩, quiet_of_quietB rfl⟩
+    · exact Or.inl ⟨⟨fun _ => ⟨rfl, rfl⟩, rfl, rfl, rfl, rfl, rfl, id, fun _ => rfl, fun _ _ => rfl, BlkInv.same rfl rfl rfl rfl rfl rfl⟩, quiet_of_quietB rfl⟩
     · split
       · exact Or.inl (harmless_refl s)
       · exact Or.inl (harmless_refl s)
@@ -440,7 +448,7 @@ theorem hHeadersVerifyBody_spec (e : Env) (s : State) (inp : Bytes) (hc : s.hsCo
           · refine Or.inr ⟨hc, rfl, ⟨_, rfl⟩, ?_⟩
             intro hvo
             simp only [accept_verifyOnly s hvo, ↓reduceIte]
-          · refine Or.inl ⟨⟨fun _ => ⟨rfl, rfl⟩, rfl, rfl, rfl, rfl, rfl, id, fun _ => rfl, fun _ _ => rfl, BlkInv.same rfl rfl rfl rfl⟩, ?_⟩
+          · refine Or.inl ⟨⟨fun _ => ⟨rfl, rfl⟩, rfl, rfl, rfl, rfl, rfl, id, fun _ => rfl, fun _ _ => rfl, BlkInv.same rfl rfl rfl rfl rfl rfl⟩, ?_⟩
             intro x hx
             simp only [List.mem_cons, List.not_mem_nil, or_false] at hx
             rcases hx with rfl | rfl <;> simp [Effect.touches]
